@@ -269,8 +269,9 @@ class Facts:
         limits = {1: 40, 2: 14, 3: 9}
         for k in range(1, max_facts + 1):
             cands = pool[:limits.get(k, 8)]
+            mc = max_coeff if k < 3 else 1
             for combo in itertools.combinations(range(len(cands)), k):
-                for lam in itertools.product(range(1, max_coeff + 1), repeat=k):
+                for lam in itertools.product(range(1, mc + 1), repeat=k):
                     r = p
                     for i, l in zip(combo, lam):
                         r = r - l * cands[i]
@@ -293,8 +294,8 @@ class Facts:
         if a is not None and a[0] == "ge":
             q = atom_pred_poly(a)
             if not neg:
-                return self.entails_ge0(-q - 1, 2, 2) is not None
-            return self.entails_ge0(q, 2, 2) is not None
+                return self.entails_ge0(-q - 1, 3, 2) is not None
+            return self.entails_ge0(q, 3, 2) is not None
         if a is not None and a[0] == "eq" and not neg:
             q = atom_pred_poly(a)
             return self.entails_ge0(q - 1, 2, 2) is not None or self.entails_ge0(-q - 1, 2, 2) is not None
